@@ -8,13 +8,15 @@ import S3V.Crypto.Base64
 Driver for component `secrets` (C16).
 case line:
 `secrets \t id \t kind \t outcome \t backend \t seed \t | \t status \t code \t accepted \t op \t nsinks \t nbytes
- \t nrecords \t hits \t corrsig \t secret(hex) \t ak(hex) \t dbg_secretkey(hex) \t json_secretkey(hex) \t dbg_credentials(opt hex) \t nredacted \t trace`
+ \t nrecords \t hits \t corrsig \t secret(hex) \t ak(hex) \t dbg_secretkey(hex) \t json_secretkey(hex) \t dbg_credentials(opt hex) \t nredacted \t trace \t bin_secretkey(hex)`
 
 * SPEC (independent of the model): any occurrence of a secret (or of a derived signing key) reported by the
   harness's search of the sinks, or found by `SecretsSpec.leaksB` in the renderings on the line, is a SPECFAIL whose
-  class names the sink: `secret-in-log`, `secret-in-response`, `secret-in-debug:S3Request`, `derived-key-in-log`, …
+  class names the sink: `secret-in-log`, `secret-in-response`, `secret-in-debug:S3Request`, `secret-in-json:SecretKey`,
+  `secret-in-serde-binary:SecretKey`, `derived-key-in-log`, …
 * MODEL: predicts (1) no occurrence anywhere, (2) `{:?}` of the `SecretKey` = `renderDebug Gen.secretKeyDebug`,
-  (3) its JSON = `renderSerializeJson Gen.secretKeySerialize`, (4) `{:?}` of the credentials the backend received =
+  (3) its JSON = `renderSerializeJson Gen.secretKeySerialize` and its rendering through the harness's compact binary
+  serde format (`is_human_readable() = false`) = `renderSerializeBinary Gen.secretKeySerialize`, (4) `{:?}` of the credentials the backend received =
   `debugVal … (Some(Credentials{…}))`, (5) outcome `ok` is accepted and every other outcome is refused, (6) the
   capture is alive (records were captured, sinks were searched; behind the real s3s-fs backend the span fields of its
   `#[instrument]`ed methods show the redacted key), (7) the sequence of (level, site, field names) of the records on the
@@ -39,7 +41,7 @@ def hitClass (hit : String) : String :=
     hits in the root sinks name the class before anything else does -/
 def rootFirst (hits : List String) : List String :=
   let inSink (s : String) (h : String) : Bool := (h.splitOn "/").head? = some s
-  let roots := ["debug:SecretKey", "json:SecretKey", "debug:Credentials"]
+  let roots := ["debug:SecretKey", "json:SecretKey", "serde-binary:SecretKey", "debug:Credentials"]
   roots.flatMap (fun r => hits.filter (inSink r)) ++ hits
 
 /-! ### the emission model of the signature check against the captured trace
@@ -96,9 +98,9 @@ def canarySink (kind : String) : Option String :=
 def judge (fs : List String) : String :=
   match fs with
   | [_comp, id, kind, outcome, backend, _seed, "|", status, code, accepted, _op, nsinks, nbytes, nrecords, hits,
-     corrsig, secretH, akH, dbgSkH, jsonSkH, dbgCredH, nredacted, trace] =>
-    match hexDecode secretH, hexDecode akH, hexDecode dbgSkH, hexDecode jsonSkH, optHexDecode dbgCredH with
-    | some secret, some ak, some dbgSk, some jsonSk, some dbgCred =>
+     corrsig, secretH, akH, dbgSkH, jsonSkH, dbgCredH, nredacted, trace, binSkH] =>
+    match hexDecode secretH, hexDecode akH, hexDecode dbgSkH, hexDecode jsonSkH, optHexDecode dbgCredH, hexDecode binSkH with
+    | some secret, some ak, some dbgSk, some jsonSk, some dbgCred, some binSk =>
       let hitList := if hits = "-" then [] else hits.splitOn ","
       match canarySink kind with
       | some sink =>
@@ -111,18 +113,21 @@ def judge (fs : List String) : String :=
         if let h :: _ := rootFirst hitList then specfail id (hitClass h) hits
         else if leaksB hexB b64B secret dbgSk then specfail id "secret-in-debug:SecretKey" "found by the driver"
         else if leaksB hexB b64B secret jsonSk then specfail id "secret-in-json:SecretKey" "found by the driver"
+        else if leaksB hexB b64B secret binSk then specfail id "secret-in-serde-binary:SecretKey" "found by the driver"
         else if (dbgCred.map (leaksB hexB b64B secret)).getD false then
           specfail id "secret-in-debug:Credentials" "found by the driver"
         else
         -- MODEL
         let mDbg := renderDebug secretKeyDebug secret
         let mJson := secretKeySerialize.map fun b => renderSerializeJson b secret
+        let mBin := secretKeySerialize.map fun b => renderSerializeBinary b secret
         let mCred := debugVal secretKeyDebug (.some (credentialsVal ak secret))
         let wantAccept := outcome = "ok"
         if nrecords.toNat?.getD 0 = 0 || nsinks.toNat?.getD 0 < 10 || nbytes.toNat?.getD 0 < 1000 then
           disagree id "records>0,sinks>=10,bytes>=1000" s!"records={nrecords},sinks={nsinks},bytes={nbytes}"
         else if dbgSk ≠ mDbg then disagree id ("dbg=" ++ hexEncode mDbg) ("dbg=" ++ dbgSkH)
         else if mJson ≠ some jsonSk then disagree id ("json=" ++ (mJson.map hexEncode).getD "none") ("json=" ++ jsonSkH)
+        else if mBin ≠ some binSk then disagree id ("bin=" ++ (mBin.map hexEncode).getD "none") ("bin=" ++ binSkH)
         else if dbgCred.isSome && dbgCred ≠ some mCred then disagree id ("cred=" ++ hexEncode mCred) ("cred=" ++ dbgCredH)
         else if (accepted = "1") ≠ wantAccept then
           disagree id (if wantAccept then "accepted" else "refused") s!"accepted={accepted} status={status} code={code}"
@@ -141,7 +146,7 @@ def judge (fs : List String) : String :=
           agree id (kind ++ ":" ++ (if accepted = "1" then "accepted" else "refused-" ++ code)
                     ++ (if corrsig = "1" then "+valid-signature-logged" else "")
                     ++ (if trace = repaired && trace ≠ asIs then "+repaired" else ""))
-    | _, _, _, _, _ => badline id
+    | _, _, _, _, _, _ => badline id
   | _ :: id :: _ => badline id
   | _ => badline "?"
 
